@@ -129,6 +129,25 @@ def eval_jsonfield(case):
     for f in before:
         if not same(before[f], fy.get(f)):
             bad('field-lost', f, f'{f}={before[f]!r} came back as {fy.get(f)!r} via {text!r}')
+    # history: what one decoding returned belongs to its caller - editing it does not change what the next decoding of the
+    # same text returns
+    try:
+        scratch = cls.from_json(text)
+        for f2, val in list(scratch.__dict__.items()):
+            if isinstance(val, list):
+                val.append(val[0] if val else 'x')
+            elif isinstance(val, bool):
+                scratch.__dict__[f2] = not val
+            elif isinstance(val, (int, float)):
+                scratch.__dict__[f2] = val + 1
+            elif isinstance(val, str):
+                scratch.__dict__[f2] = val + 'x'
+        y2 = cls.from_json(text)
+        f2y = fields(y2) if y2 is not None else {}
+        if any(not same(before[f], f2y.get(f)) for f in before):
+            bad('decode-not-repeatable', '', f'decoding {text!r} again after editing the first result gives {f2y}')
+    except Exception as e:
+        bad('decode-not-repeatable', '', f'{type(e).__name__}: {e}')
     text2 = y.to_json()
     if text2 != text:
         bad('not-canonical', '', f're-encoding gives {text2!r}, first encoding {text!r}')
